@@ -347,7 +347,7 @@ def run_stream(ck, mode, cases, exe_impl, exe_model, with_model=True):
     if not cases:
         return
     args = ["program"] if mode == "program" else (["context"] if mode == "context" else [])
-    rc1, impl_out, e1 = core.run_sharded(exe_impl, args, cases, timeout=3000)
+    rc1, impl_out, e1 = core.run_sharded(exe_impl, args, cases, timeout=6000)
     model_out = spec_out = None
     rc2 = rc3 = 0
     e2 = e3 = ""
@@ -406,19 +406,19 @@ def run(ck):
     ex = exhaustive(2 if quick else 4)
     ck.coverage["exhaustive_histories"] = "%d histories: prelude + all sequences of length <= %d over the %d-input alphabet + probes" % (len(ex), 2 if quick else 4, len(ALPHABET))
     cases += ex
-    n = 300 if quick else 12000
+    n = 300 if quick else 6000
     for i in range(n):
         cases.append(gen_history(rng.fork(), 6 if rng.chance(3, 4) else 12))
     run_stream(ck, "repl", cases, exe_impl, exe_model)
     # 2. REPL sessions with `:load` (not in the Coq model: direct oracle only)
-    lcases = [gen_history(rng.fork(), 8, loads=True) for _ in range(60 if quick else 1500)]
+    lcases = [gen_history(rng.fork(), 8, loads=True) for _ in range(60 if quick else 600)]
     lcases = [c for c in lcases if "(load" in c]
     run_stream(ck, "repl-load", lcases, exe_impl, exe_model, with_model=False)
     # 3. one Program evaluated repeatedly (budgeted, then unlimited): direct oracle only
-    pcases = program_cases(cases[len(corpus()) + len(ex):][: (120 if quick else 4000)] + ex[: (40 if quick else 1500)])
+    pcases = program_cases(cases[len(corpus()) + len(ex):][: (120 if quick else 1800)] + ex[: (40 if quick else 700)])
     run_stream(ck, "program", pcases, exe_impl, exe_model, with_model=True)
     # 4. one VmContext re-used for several sources importing the same files (nickel::Context)
-    ccases = [gen_context_history(rng.fork(), 6) for _ in range(80 if quick else 3000)]
+    ccases = [gen_context_history(rng.fork(), 6) for _ in range(80 if quick else 1500)]
     run_stream(ck, "context", ccases, exe_impl, exe_model, with_model=False)
     ck.coverage["traces_validated_against_impl"] = len(cases) + len(lcases) + len(pcases) + len(ccases)
     ck.coverage["rule"] = ("history = sequence of REPL inputs (def / eval / full / query, each with a step budget K of hook H1 or unlimited; "
